@@ -7,31 +7,31 @@ HERE = os.path.dirname(os.path.dirname(os.path.abspath(__file__)))
 
 CHECKS = {
     'C01': dict(
-        technique='structured stream generation (Hypothesis) + finite-model evaluation oracle',
+        technique='structured stream generation (Hypothesis) incl. attack steps the documented machine rejects (violated side conditions, nearly-positive mu, laundered constraints, capture under a generalised binder) + finite-model evaluation oracle',
         text='Generated instruction streams (typed builder with REFL/WEAKEN gadgets so that Generalization, Substitution and Instantiate act on real theorems) are executed by the real checker code; every term it marks proved is evaluated in finite models (carrier 1-3, exhaustive for small interpretation spaces, sampled otherwise) on admissible concrete instances. Exploration: finds unsound rules reachable within the generated shapes, does not prove soundness.',
         note='trusted: lib/refsem.py (textbook finite-model semantics), lib/refml.py (admissibility, capture-avoiding resolution); models with carrier <= 3',
         ref='DESIGN.md 3/C01',
     ),
     'C02': dict(
-        technique='generated proof modules (Hypothesis) serialised by the real code path, judged by the real checker binary and the reference machine',
+        technique='generated proof modules (Hypothesis: lemma applications, further instantiation, Quantifier / functional-substitution instances, partial notation claims, theories of 40-250 axioms) serialised by the real code path, judged by the real checker binary and the reference machine',
         text='Shipped modules plus generated compositions of library lemmas over arbitrary well-formed argument patterns are serialised (both optimise settings) and must be accepted by the checker built from the working tree.',
         note='generated arguments are documented-well-formed, admissible and capture-free (preconditions of the toolkit, DESIGN 2.3)',
         ref='DESIGN.md 3/C02',
     ),
     'C03': dict(
-        technique='generated modules (Hypothesis) + reference machine with publish journal as oracle',
+        technique='generated modules (Hypothesis; axioms fed through constructor / add_axiom / add_axioms, twins, import graphs, id and slot boundaries) + reference machine with publish journal as oracle; expectation taken from the generated description',
         text='Random modules (axiom/claim lists, import graphs, symbol sets incl. the >256 boundary) are serialised; the reference machine decodes what was published and compares it with the declaration, for both optimise settings.',
         note='trusted: lib/refmachine.py; modules use load_axiom proofs so any claim shape is provable',
         ref='DESIGN.md 3/C03',
     ),
     'C04': dict(
-        technique='Hypothesis rule-based state machine over the serialising interpreter; reference machine as model, invariant after every call',
+        technique='Hypothesis rule-based state machine over the serialising interpreter (legal calls and forbidden ones that must be refused); reference machine as model, invariant after every call',
         text='Histories of DSL calls accepted by the stateful interpreter are replayed byte-for-byte on the documented machine; stack (modulo publish residues), memory, claims and every Load are compared after each step.',
         note='trusted: lib/refmachine.py; simulation relation erases publish residues (DESIGN 2.2)',
         ref='DESIGN.md 3/C04',
     ),
     'C05': dict(
-        technique='differential testing: reference machine vs checker (harness + real binary); exhaustive short programs, mutations of valid programs',
+        technique='differential testing: reference machine vs checker (harness + real binary); exhaustive short programs, exhaustive truncation of variable-length encodings, generated programs and mutations (phase leaks, bulk memory beyond 256 slots), judgement differential',
         text='Every byte string up to a length bound over the opcode alphabet (after preset prefixes), generated valid programs and their mutations are run through both implementations; verdict, stack, memory and claims must agree.',
         note='trusted: lib/refmachine.py written from docs/proof-language.md with the conventions of DESIGN 2.1',
         ref='DESIGN.md 3/C05',
@@ -43,25 +43,25 @@ CHECKS = {
         ref='DESIGN.md 3/C06',
     ),
     'C07': dict(
-        technique='Hypothesis premises (applicable / near-miss / inapplicable) vs reference rule application on expansions',
+        technique='Hypothesis premises (applicable / near-miss / inapplicable / derived from one another / directed binder-notation cases / ids 0-300-70000) vs reference rule application on expansions',
         text='Python modus_ponens / exists_generalization / instantiate either raise or return exactly the reference conclusion; returning on inapplicable premises is a violation.',
         note='raising is always allowed (completeness not demanded); constraint checking at instantiation not demanded',
         ref='DESIGN.md 3/C07',
     ),
     'C08': dict(
-        technique='Hypothesis proof expressions run under every interpreter stack; all-or-none success and equal conclusions',
+        technique='Hypothesis proof expressions, call histories and theories of up to 200 axioms run under twelve interpreter stacks (incl. the one serialize(optimize=True) builds); all-or-none success and equal conclusions',
         text='One proof expression is evaluated under Basic, Stateful, Counting, Serializing, PrettyPrinting, Memoizing, InstantiationOptimizer and two-level stacks; success and conclusions must agree and equal the advertised conclusion.',
         note='expressions are those a caller can build through the DSL; interpreter stacks up to depth 2',
         ref='DESIGN.md 3/C08',
     ),
     'C09': dict(
-        technique='bounded-exhaustive + Hypothesis propositional formulas and ordered clause sets; truth-table oracle',
+        technique='bounded-exhaustive + Hypothesis propositional formulas and ordered clause sets (directed families: repeated literals, all-trivial sets, four-literal refutations); truth-table oracle',
         text='prove_tautology verdict and conclusion are compared with truth tables; each normal-form stage is checked for shape, equivalence and both implication proofs; the resolution stage is driven directly with all clause orderings.',
         note='trusted: truth tables in lib/refsem.py; formulas over <= 4 variables',
         ref='DESIGN.md 3/C09',
     ),
     'C10': dict(
-        technique='catalogue of advertised schemas (transcribed from docstrings) applied to Hypothesis-generated arguments; conclusion equality + replay on reference machine',
+        technique='catalogue of advertised schemas (transcribed from docstrings, incl. the match-based and parametric rules) applied to Hypothesis-generated arguments (aliased arguments, premises in notation form, sibling warm-up); conclusion equality + replay on reference machine',
         text='Every library entry point is called with arbitrary well-formed patterns and premise thunks; its conclusion must expand to the advertised schema and its serialisation must replay using only Prop1-3, MP, Instantiate and declared axioms.',
         note='catalogue transcribed by hand from the docstrings (lib/schemas.py)',
         ref='DESIGN.md 3/C10',
@@ -91,37 +91,37 @@ CHECKS = {
         ref='DESIGN.md 3/C14',
     ),
     'C15': dict(
-        technique='exhaustive number codec round trip + Hypothesis label lists / layouts / Z placements vs a reference decoder written from the Metamath book; hash-seed sweep in child processes',
+        technique='exhaustive number codec round trip + Hypothesis label lists / layouts / Z placements / earlier proofs vs a reference decoder written from the Metamath book; decoded proofs executed by the translator; hash-seed sweep in child processes',
         text='All step numbers in range are encoded by a reference encoder and decoded by the repository; label tables, Z handling and mandatory-hypothesis order are compared with the reference decoder under several PYTHONHASHSEED values.',
         note='trusted: lib/refmm.py (Appendix B codec)',
         ref='DESIGN.md 3/C15',
     ),
     'C16': dict(
-        technique='generated Metamath databases + derivations (verified by reference verifier) translated by the real code and judged by the checker; structural image oracle',
+        technique='generated Metamath databases (all variable kinds, directed notation bodies, ground rules) + derivations in four compression layouts (verified by reference verifier) translated by the real code and judged by the checker; structural image oracle',
         text='Databases in the supported dialect with random derivations in three compression layouts are translated; translation must succeed, published claim/axioms must be the structural image of the database, and the checker must accept.',
         note='trusted: lib/refmm.py; dialect read off converter.py (DESIGN 2.3)',
         ref='DESIGN.md 3/C16',
     ),
     'C17': dict(
-        technique='round trip parse/print/parse on generated databases; slices re-verified by a strict reference Metamath verifier',
+        technique='round trip parse/print/parse on generated databases (statements of up to 5000 symbols, another database parsed in between); slices (late declarations, spurious $d variables) re-verified by a strict reference Metamath verifier',
         text='Printing and re-parsing is the identity on generated databases; every slice re-parses, is self-contained under strict verification, and keeps floating hypotheses in order.',
         note='trusted: lib/refmm.py',
         ref='DESIGN.md 3/C17',
     ),
     'C18': dict(
-        technique='metamorphic: same input under different PYTHONHASHSEED / process / in-process history must give byte-identical files',
+        technique='metamorphic: same input under different PYTHONHASHSEED / process / in-process history (job order, doubled jobs, serialise-grow-serialise vs fresh build, complementary notation sets) must give byte-identical files',
         text='Generated modules and databases are serialised/translated in child processes under several hash seeds and after different in-process histories; all six output files must be byte-identical.',
         note='hash seeds sampled (0..7 + random quick, 0..63 thorough)',
         ref='DESIGN.md 3/C18',
     ),
     'C19': dict(
-        technique='metamorphic on renderings (distinct argument tuples => distinct renderings) + step-by-step comparison of pretty vs binary files',
+        technique='metamorphic on renderings (distinct argument tuples incl. look-alikes => distinct renderings; same application reached through instantiate => same rendering) + step-by-step comparison of pretty vs binary files',
         text='For every shipped notation, applications that expand differently must print differently; pretty files are parsed into steps and aligned with decoded binary instructions.',
         note='argument pool has pairwise distinct renderings',
         ref='DESIGN.md 3/C19',
     ),
     'C20': dict(
-        technique='generated K signatures, rules and traces (Hypothesis) vs an independent substitution on Kore terms; checker acceptance',
+        technique='generated K signatures, rules (incl. sort-parametric) and traces (with non-rule events, wrong and incomplete substitutions) (Hypothesis) vs an independent substitution on Kore terms; checker acceptance',
         text='Claims of generated execution proofs must be the instantiated rewrites in order, chaining from configuration to configuration; mismatching steps must be refused; conversion commutes with substitution; the module serialises and is accepted.',
         note='runs against a stand-in for pyk.kore.syntax (lib/kore_shim.py), which is absent in this sandbox',
         ref='DESIGN.md 3/C20',
